@@ -172,7 +172,7 @@ def mutate(rng, doc):
         elif k == 5 and e:
             e[rng.choice(list(e.keys()))] = rng.choice(WEIRD)
         elif k == 6:
-            e["signed_by"] = e["name"]                       # self-signed
+            e["signed_by"] = e.get("name")                   # self-signed
         elif k == 7 and len([x for x in els if isinstance(x, dict)]) >= 2:
             a, b = rng.sample([x for x in els if isinstance(x, dict)], 2)
             a["signed_by"], b["signed_by"] = b.get("name"), a.get("name")   # mutual
